@@ -143,11 +143,19 @@ def check_case(case, rec):
     if neg:
         mech.add('negative-power')
     oab = oracle_values(spec, np.float64, asbuilt=mech)[0] if mech else None
+    oab_ld = oracle_values(spec, np.longdouble, asbuilt=mech)[0] if mech else None
     rec.cls(*[f'mech-{m}' for m in sorted(mech)])
     scale_len = max(1.0, float(np.max(np.abs(P.z))), abs(float(o64['f2'])) if np.isfinite(o64['f2']) else 1.0)
 
     def cond(name):
-        return float(np.max(np.abs(np.asarray(o64[name], float) - np.asarray(old[name], float))))
+        c = float(np.max(np.abs(np.asarray(o64[name], float) - np.asarray(old[name], float))))
+        if oab is not None:
+            # the as-built system (known mechanisms modelled in) may be worse conditioned than the true one
+            with np.errstate(all='ignore'):
+                c2 = np.max(np.abs(np.asarray(oab[name], float) - np.asarray(oab_ld[name], float)))
+            if np.isfinite(c2):
+                c = max(c, float(c2))
+        return c
 
     def flags_for(*names):
         return tuple(m for m in ('asphere-r2-term', 'negative-power', 'mirror-unsigned-index')
